@@ -66,6 +66,9 @@ func execLocal(input string) (out string) {
 	if f[0] == "opts" {
 		return execOpts(f)
 	}
+	if f[0] == "strag" {
+		return execStrag(f)
+	}
 	return execE2E(parseScenario(f))
 }
 
@@ -115,7 +118,7 @@ func (t *tailBuffer) firstLine() string {
 	t.mu.Lock()
 	defer t.mu.Unlock()
 	for _, l := range strings.Split(t.b.String(), "\n") {
-		if l = strings.TrimSpace(l); l != "" {
+		if l = strings.TrimSpace(l); l != "" && strings.Trim(l, "=") != "" {
 			return l
 		}
 	}
@@ -133,7 +136,7 @@ func startWorker() (*worker, error) {
 		return nil, err
 	}
 	cmd := exec.Command(exe)
-	cmd.Env = append(os.Environ(), workerEnv+"=1", "GOTRACEBACK=single")
+	cmd.Env = append(os.Environ(), workerEnv+"=1", "GOTRACEBACK=single", "GORACE=halt_on_error=1")
 	stdin, err := cmd.StdinPipe()
 	if err != nil {
 		return nil, err
